@@ -298,6 +298,13 @@ func (g *runner) run(p *pkt, tag string, badmac bool) string {
 			fail("C13:forward:"+bad[0], "forwarding rule violated: "+strings.Join(bad, ","), map[string]any{"answer": ans})
 		}
 	}
+	// forwarding, the other direction: the generator built a well-formed UDP packet for another
+	// end-host port and sent it to the end-host port of a listener that does not serve that port.
+	// (The sentinel is handled after it by the same goroutine, so a forward would have arrived.)
+	if p.wantFwd && o.kind != "forward" && o.kind != "both" && o.kind != "panic" {
+		fail("C13:forward:not-forwarded", "packet received on the end-host port and addressed to another end-host port was not forwarded ("+o.kind+")",
+			map[string]any{"answer": ans, "dst_port": p.dp, "listener": p.mode})
+	}
 	return ans
 }
 
@@ -762,14 +769,30 @@ func genDispatcher(g *runner, r *lib.Rand, n int) {
 		pickPath(r, p, []int{0, 1, 1, 2, 3}[r.Intn(5)])
 		p.dp = ports[r.Intn(len(ports))]
 		p.dt, p.da = 0, []byte{127, 0, 13, 3}
-		if r.Chance(20) {
+		nts := ""
+		if r.Chance(25) {
+			// an NTP request with NTS extension fields (the forwarder has neither keys nor a
+			// key provider: it must pass it on like any other payload)
+			p.pld = ntsRequest(r, byte(r.U64()), r.Chance(75))
+			nts = ":nts"
+		}
+		if r.Chance(30) {
 			withAuth(p, spiClient, 0)
+			if r.Bool() {
+				p.auth[12+r.Intn(16)] ^= byte(1 << r.Intn(8))
+			}
 		}
 		if r.Chance(10) {
 			p.l4, p.scmpT, p.sp, p.dp, p.pld = "scmp", []int{128, 130, 5}[r.Intn(3)], 0, 0, r.Bytes(12)
+			nts = ""
 		}
 		finish(p)
-		g.run(p, fmt.Sprintf("disp:dp=%s", portClass(p.dp)), false)
+		// the dispatcher serves no port: whatever it was started with (the child passes
+		// <host>:svcPort), UDP for any port but 30041 is to be forwarded, and a request whose
+		// authenticator does not verify is certainly not to be answered by it
+		p.wantFwd = p.l4 == "udp" && p.dp != endhost
+		badmac := p.l4 == "udp" && p.hasAu && p.mac != "-" && p.mac != "err" && lib.Hex(p.auth[12:]) != p.mac
+		g.run(p, fmt.Sprintf("disp:dp=%s%s", portClass(p.dp), nts), badmac)
 	}
 }
 
